@@ -597,10 +597,10 @@ def r1_9(ctx: Ctx) -> None:
 
 # pops keyed by an identifier whose presence rests on an invariant the analysis can see elsewhere (one reason each)
 POP_TRIAGE: Dict[Tuple[str, str], str] = {
-    ("SoftwareManager.uninstall", "self.node.applications.pop(software.uuid)"):
+    ("SoftwareManager.uninstall", "self.node.applications"):
         "`software` was fetched from self.software under the `in` guard above; install() files every Application in "
         "node.applications in the same call that files it in self.software (C13 R13.4 pairing)",
-    ("SoftwareManager.uninstall", "self.node.services.pop(software.uuid)"):
+    ("SoftwareManager.uninstall", "self.node.services"):
         "same pairing for services",
 }
 
@@ -672,8 +672,8 @@ def r1_10(ctx: Ctx) -> None:
             done.add(ident)
             n += 1
             k = ctx.key(f, f"{unparse(c)[:70]} is guarded")
-            if ident in POP_TRIAGE:
-                ctx.ok("R1.10", k, f.loc(c), POP_TRIAGE[ident])
+            if (f.short, table) in POP_TRIAGE:
+                ctx.ok("R1.10", k, f.loc(c), POP_TRIAGE[(f.short, table)])
                 continue
             g = g or CFG(f.node)
             ld = LocalDefs(f.node)
